@@ -42,3 +42,15 @@ pub mod iospec {
     pub assume_specification [std::io::Error::kind] (e: &std::io::Error) -> (k: std::io::ErrorKind);
     pub assume_specification [<std::io::ErrorKind as PartialEq>::eq] (a: &std::io::ErrorKind, b: &std::io::ErrorKind) -> (r: bool);
 }
+//# section: fmt-ghost
+// core::fmt::Formatter with a ghost "a write into this formatter has failed" flag: a user Display impl must not return Ok after
+// one of its pieces failed, because io::Write::write_fmt reports the sink's error only when the formatting returns Err.
+pub mod fmtspec {
+    use vstd::prelude::*;
+    pub uninterp spec fn fmt_failed(f: &core::fmt::Formatter<'_>) -> bool;
+    // TRUSTED: Formatter::write_fmt / write_str return Err exactly when a write into the underlying sink failed (std).
+    pub assume_specification<'a> [core::fmt::Formatter::<'a>::write_fmt] (f: &mut core::fmt::Formatter<'a>, args: core::fmt::Arguments<'_>) -> (r: core::fmt::Result)
+        ensures r is Ok ==> fmt_failed(final(f)) == fmt_failed(old(f)), r is Err ==> fmt_failed(final(f));
+    pub assume_specification<'a> [core::fmt::Formatter::<'a>::write_str] (f: &mut core::fmt::Formatter<'a>, s: &str) -> (r: core::fmt::Result)
+        ensures r is Ok ==> fmt_failed(final(f)) == fmt_failed(old(f)), r is Err ==> fmt_failed(final(f));
+}
